@@ -49,7 +49,7 @@ def write_cfg(wd, name, req, tr, resp, dev, cdev, emit, mod, res, shape):
 
 
 # number of cases TLC enumerates within the bounds (measured; only used to size the replayed sample)
-ENUMERATED = {"quick": 318696, "thorough": 2540000}
+ENUMERATED = {"quick": 318696, "thorough": 2544408}
 # deviation switches of HeaderEdit.tla that are not findings: TLC must refute each (self-test of the property)
 SELF_TEST = ["ConnFieldToH2Backend", "ConnFieldToH2Client"]
 
